@@ -533,6 +533,10 @@ func (s *Server) Prepare(conf *ServerConfig) (err error) {
 
 	s.dnsProxy = dnsProxy
 
+	// The request IDs of the new proxy start anew, so the ClientIDs saved for
+	// the requests of the previous one must not be found by its requests.
+	s.clientIDCache.Clear()
+
 	s.setupAddrProc()
 
 	s.registerHandlers()
